@@ -348,7 +348,13 @@ impl Driver {
             13 => Op::Broadcast,
             _ => {
                 let mut c2 = self.node.cfg.clone();
-                match self.r.below(9) {
+                match self.r.below(10) {
+                    // another packet size (never below what the codec's headers need; the tiny-packet cases keep theirs)
+                    9 => {
+                        if c2.mps >= min_mps(self.node.codec) {
+                            c2.mps = (*self.r.pick(&[40usize, 60, 90, 150, 400, 1400])).max(min_mps(self.node.codec));
+                        }
+                    }
                     0 => c2.tx = *self.r.pick(&[1u8, 2, 5, 20, 255]),
                     1 => c2.k = self.r.range(1, 4) as usize,
                     2 => c2.pg = None,
